@@ -93,6 +93,13 @@ def run(tier, seed, rng):
                                      classes=pktprops.class_source(allg, r['group']), cls=decl.cname(r['c']), raw=r['raw'].hex(),
                                      offset=r['offset'], observed=o))
                 break
+        # the values themselves: a string of declared size has that size, a delimited string really ends at its first delimiter
+        for why in pktprops.leaf_violations(table, pktprops.uncanon(o['ok'])):
+            dist['leaf_violations'] = dist.get('leaf_violations', 0) + 1
+            failures.append(dict(kind='oracle', sig='strict-leaf', what='a value was not decoded from the bytes its declaration requires: ' + why,
+                                 classes=pktprops.class_source(allg, r['group']), cls=decl.cname(r['c']), raw=r['raw'].hex(),
+                                 offset=r['offset'], observed=o))
+            break
         # a declaration without positioning reads sequentially: the cursor can never pass the end of the input
         if not pktprops.has_feature(table, lambda k, x: k == 'move' or (k == 'class' and x.get('align') is not None)
                                     or (k == 'body' and x[0] == 'seq' and x[6] not in (None, 1))):
